@@ -17,7 +17,7 @@ from ..envs import SimFS, bytes_to_bits
 from ..kernel import Engine, call, canon, exc_is
 
 CLASSES = ('Bits', 'BitArray', 'ConstBitStream', 'BitStream')
-KINDS = ('bytes', 'bytearray', 'memoryview', 'bitarray', 'bytesio', 'filename', 'handle')
+KINDS = ('bytes', 'bytearray', 'memoryview', 'bitarray', 'bytesio', 'filename', 'handle', 'mv_cast_H', 'mv_cast_I', 'array_H')
 INT_TYPES = ('uint', 'int', 'uintbe', 'intbe', 'uintle', 'intle', 'uintne', 'intne')
 
 
@@ -175,7 +175,7 @@ class EReject(Engine):
             return self.queue.pop(0) if self.queue else None
         B = self.B
         how = g.pick(['prop', 'prop', 'prop_named', 'slice_int', 'slice_int', 'append_token', 'pack', 'build', 'ctor', 'arr_set', 'arr_append', 'arr_insert',
-                      'arr_extend', 'illegal_length', 'bad_digits', 'token_len_mismatch', 'ctor_strlen', 'digits', 'digits', 'pack_kwlen', 'typed', 'typed', 'typed'])
+                      'arr_extend', 'arr_iop', 'arr_iop', 'illegal_length', 'bad_digits', 'token_len_mismatch', 'ctor_strlen', 'digits', 'digits', 'pack_kwlen', 'typed', 'typed', 'typed'])
         tgt = g.pick(['ba', 'bs'])
         obj = self.ba if tgt == 'ba' else self.bs
         n = len(obj)
@@ -196,6 +196,13 @@ class EReject(Engine):
             name = g.pick(INT_TYPES)
             w = g.pick([1, 3, 8, 12, 16, 24, 33, 64, 70])
             ev.update(name=name, w=w, v=boundary_values(g, name, w), cls=g.pick(CLASSES), form=g.pick(['colon', 'plain', 'kw']))
+        elif how == 'arr_iop':
+            # an in-place element-wise operator whose result fits for some items and not for others
+            d = self.arr.dtype
+            w = d.bitlength
+            lo, hi = (0, (1 << w) - 1) if d.name.startswith('uint') else (-(1 << (w - 1)), (1 << (w - 1)) - 1)
+            ev.update(items=[g.pick([lo, hi, lo + 1, hi - 1, 0, 1, g.int(lo, hi)]) for _ in range(g.int(1, 5))], sym=g.pick(['+', '-', '*', '<<', '//']),
+                      v=g.pick([0, 1, 2, -1, 3, hi, 1 << w]))
         elif how in ('arr_set', 'arr_append', 'arr_insert', 'arr_extend'):
             d = self.arr.dtype
             ev.update(v=boundary_values(g, d.name, d.bitlength), i=g.int(-2, 5), v2=boundary_values(g, d.name, d.bitlength))
@@ -272,6 +279,14 @@ class EReject(Engine):
                 st, x = call(C, bytes=bytearray(data), **kw)
             elif kind == 'memoryview':
                 st, x = call(C, bytes=memoryview(data), **kw)
+            elif kind in ('mv_cast_H', 'mv_cast_I', 'array_H'):
+                # a buffer whose items are wider than a byte: the window still counts bits of its bytes
+                isz = 4 if kind.endswith('I') else 2
+                if len(data) % isz or not data:
+                    return {'skip': 'size is not a multiple of the item size'}, []
+                import array as _array
+                buf = memoryview(data).cast(kind[-1]) if kind.startswith('mv') else _array.array('H', data)
+                st, x = call(C, bytes=buf, **kw)
             elif kind == 'bitarray':
                 ba = _ba.bitarray()
                 ba.frombytes(data)
@@ -377,6 +392,26 @@ class EReject(Engine):
                 else:
                     st, r = call(lambda: C(**{name: v, 'length': w}))
                 new_obj, want_len = (r if st == 'ok' else None), w
+        elif how == 'arr_iop':
+            import operator as _op
+            d = self.arr.dtype
+            items = [x_ for x_ in ev.get('items', []) if isinstance(x_, int) and not isinstance(x_, bool) and in_range(d.name, d.bitlength, x_)][:6]
+            sym = ev.get('sym') if ev.get('sym') in ('+', '-', '*', '<<', '//') else '+'
+            if not items or (sym == '<<' and not 0 <= v <= 80) or (sym == '//' and v == 0):
+                return {'skip': 'nothing to operate on / undefined operation'}, []
+            self.arr = B.Array(str(d), items)
+            before = self._snap()
+            py = {'+': _op.add, '-': _op.sub, '*': _op.mul, '<<': _op.lshift, '//': _op.floordiv}[sym]
+            res = [py(x_, v) for x_ in items]
+            expect = all(in_range(d.name, d.bitlength, r_) for r_ in res)
+            changed_key, want_len = 'arr', len(before['arr'])
+            trig = 'arr_iop' + ('' if expect else '|some-fit' if any(in_range(d.name, d.bitlength, r_) for r_ in res) else '|none-fits')
+            iop = {'+': _op.iadd, '-': _op.isub, '*': _op.imul, '<<': _op.ilshift, '//': _op.ifloordiv}[sym]
+            st, r = call(iop, self.arr, v)
+            if expect is False:
+                self.probe('array_write_rejected')
+            elif st == 'ok' and self.arr.tolist() != res:
+                incs.append(self.inc(f'write|{trig}|accepted-with-wrong-items', event=ev, got=self.arr.tolist()[:8], want=res[:8]))
         elif how in ('arr_set', 'arr_append', 'arr_insert', 'arr_extend'):
             d = self.arr.dtype
             expect = in_range(d.name, d.bitlength, v)
